@@ -53,7 +53,11 @@ CONSTANTS Traces,      \* set of strings: trace ids
           ResizeKept,  \* kept capacities a Resize may ask for (0 = rejected by lru.New)
           DropSizes,   \* dropped-filter capacities (0..7), initial and by Resize
           MaxQueue,    \* bound on the add queue explored (real depth: 1000)
-          MaxCount     \* span counts are observed saturated at this value
+          MaxCount,    \* span counts are observed saturated at this value
+          MaxTotal,    \* (SpecP) dropped records explored per walk
+          TrackPromise \* TRUE: the implementation-shaped Spec also maintains the promise ghosts
+                       \*       (pSince, pCapMin, pNeedMaint, pRegular) so that TLC can check
+                       \*       PromiseHeldByModel; FALSE: they stay constant (no extra states)
 
 VARIABLES kept,      \* sequence of [t, rate, reason, count], oldest first
           keptCap,   \* capacity of the kept LRU
@@ -69,9 +73,25 @@ VARIABLES kept,      \* sequence of [t, rate, reason, count], oldest first
                      \*        [t, rate, reason], oldest first, trimmed to capacity
           obl,       \* ghost: Traces -> 0..2, number of rotations the dropped record
                      \*        of t is still guaranteed to survive (0 = no obligation)
-          act
+          act,
+          \* --- variables of the promise-only specification SpecP (see the end of the module);
+          \*     SpecP also uses keptCap, nextCap (the configuration), queue and gh
+          pEver,      \* Traces -> <<rate, reason>> last recorded as kept, or <<>>
+          pEverDrop,  \* traces ever recorded as dropped
+          pSince,     \* Traces -> -1 .. SinceMax: dropped records settled after t's latest
+                      \*           settled dropped record (saturating), -1 = none
+          pFresh,     \* recorded as dropped and no ExpireRecent since
+          pNeedMaint, \* a record was settled and no maintenance cycle ran since
+          pCapMin,    \* smallest dropped capacity configured so far
+          pRegular,   \* (Spec with TrackPromise only) maintenance has been regular so far
+          pLast,      \* answer of the last lookup
+          pTotal,     \* (SpecP) dropped records settled so far; history only: it makes the
+          pResizedAt  \* (SpecP) walk visit every lookup at every fill level before and after a
+                      \*         capacity change (pTotal at the last one, -1 = none)
 
-vars == <<kept, keptCap, cur, curSlots, futOn, fut, futSlots, nextCap, queue, recent, gh, obl, act>>
+ivars == <<kept, keptCap, cur, curSlots, futOn, fut, futSlots, nextCap, queue, recent, gh, obl>>
+pvars == <<pEver, pEverDrop, pSince, pFresh, pNeedMaint, pCapMin, pRegular, pLast, pTotal, pResizedAt>>
+vars == <<ivars, pvars, act>>
 
 Min(a, b) == IF a < b THEN a ELSE b
 Max(a, b) == IF a > b THEN a ELSE b
@@ -87,6 +107,29 @@ SumOver(b, S) == IF S = {} THEN 0
 Total(b) == SumOver(b, Traces)
 
 Permille(n, slots) == (n * 1000) \div slots
+
+\* --- the promise in numbers -------------------------------------------------
+\* A drained dropped record is promised to be answered dropped while fewer than
+\* Retain(capacity) further dropped records have been settled, given regular
+\* maintenance.  Retain(c) = Slots(c) / 2 - 1 is what a two-generation filter whose
+\* shadow generation starts at half load can guarantee; for production sizes
+\* (slots = 1.04 .. 2.08 x DroppedSize) that is 0.5 .. 1.0 x DroppedSize.
+Retain(cap) == IF cap < 0 THEN 0 ELSE Slots(cap) \div 2 - 1
+\* A Resize that lowers the promised retention leaves filters of two sizes in use for
+\* two rotations (the larger current one outlives its smaller shadow's capacity), and
+\* no count of records describes that; the numeric obligation is void from then on
+\* (capacity in force = -1).  Growing or keeping the size keeps the obligation.
+CapInForce(capMin, oldCap, newCap) ==
+  IF capMin < 0 \/ Retain(newCap) < Retain(oldCap) THEN -1 ELSE Min(capMin, newCap)
+SinceMax == 3
+NoLast == [op |-> "-", t |-> "-", ans |-> "-", rate |-> 0, reason |-> ""]
+
+\* settle the add queue q into the since-counters s
+RECURSIVE SettleSince(_, _)
+SettleSince(q, s) ==
+  IF q = <<>> THEN s
+  ELSE SettleSince(Tail(q), [u \in Traces |-> IF u = Head(q) THEN 0
+                                              ELSE IF s[u] >= 0 THEN Min(s[u] + 1, SinceMax) ELSE -1])
 
 MetaPairs == IF Coupled
              THEN LET f == CHOOSE f \in [Rates -> Reasons] : \A a, b \in Rates : a # b => f[a] # f[b]
@@ -143,6 +186,16 @@ Init == /\ kept = <<>>
         /\ gh = <<>>
         /\ obl = [t \in Traces |-> 0]
         /\ act = [name |-> "Init"]
+        /\ pEver = [t \in Traces |-> <<>>]
+        /\ pEverDrop = {}
+        /\ pSince = [t \in Traces |-> -1]
+        /\ pFresh = {}
+        /\ pNeedMaint = FALSE
+        /\ pCapMin = nextCap
+        /\ pRegular = TRUE
+        /\ pLast = NoLast
+        /\ pTotal = 0
+        /\ pResizedAt = -1
 
 ---------------------------------------------------------------------------
 \* Record(trace, keep = true, reason): keptReasons.Set + lru.Add
@@ -264,14 +317,38 @@ Resize(n, d) ==
   /\ UNCHANGED <<cur, curSlots, futOn, fut, futSlots, queue, recent, obl>>
   /\ act' = [name |-> "Resize", kept |-> n, dropped |-> d, err |-> (n < 1)]
 
-Next == \/ \E t \in KeepTraces, m \in MetaPairs : RecordKept(t, m[1], m[2])
-        \/ \E t \in DropTraces : RecordDropped(t)
-        \/ Drain
-        \/ Maintain
-        \/ \E t \in Traces : CheckSpan(t)
-        \/ \E t \in Traces : CheckTrace(t)
-        \/ ExpireRecent
-        \/ \E n \in ResizeKept, d \in DropSizes : Resize(n, d)
+\* promise ghosts maintained next to the implementation-shaped model (TrackPromise)
+pTracked == <<pSince, pNeedMaint, pCapMin, pRegular>>
+pUntracked == <<pEver, pEverDrop, pFresh, pLast, pTotal, pResizedAt>>
+TrackRecord ==
+  IF TrackPromise
+  THEN /\ pRegular' = (pRegular /\ queue = <<>> /\ ~pNeedMaint)
+       /\ UNCHANGED <<pSince, pNeedMaint, pCapMin, pUntracked>>
+  ELSE UNCHANGED pvars
+TrackSettle(needMaint) ==
+  IF TrackPromise
+  THEN /\ pSince' = SettleSince(queue, pSince)
+       /\ pNeedMaint' = IF needMaint THEN TRUE ELSE FALSE
+       /\ UNCHANGED <<pCapMin, pRegular, pUntracked>>
+  ELSE UNCHANGED pvars
+TrackResize(n, d) ==
+  IF TrackPromise /\ n >= 1
+  THEN /\ pCapMin' = CapInForce(pCapMin, nextCap, d)
+       /\ UNCHANGED <<pSince, pNeedMaint, pRegular, pUntracked>>
+  ELSE UNCHANGED pvars
+
+Next == \/ /\ \E t \in KeepTraces, m \in MetaPairs : RecordKept(t, m[1], m[2])
+           /\ UNCHANGED pvars
+        \/ /\ \E t \in DropTraces : RecordDropped(t)
+           /\ TrackRecord
+        \/ Drain /\ TrackSettle(TRUE)
+        \/ Maintain /\ TrackSettle(FALSE)
+        \/ /\ \E t \in Traces : CheckSpan(t)
+           /\ UNCHANGED pvars
+        \/ /\ \E t \in Traces : CheckTrace(t)
+           /\ UNCHANGED pvars
+        \/ ExpireRecent /\ UNCHANGED pvars
+        \/ \E n \in ResizeKept, d \in DropSizes : Resize(n, d) /\ TrackResize(n, d)
 
 Spec == Init /\ [][Next]_vars
 
@@ -348,6 +425,168 @@ NoSpontaneousAnswer ==
   [][\A t \in Traces : (TraceAns(t) = NoAnswer /\ TraceAns(t)' # NoAnswer) =>
         \/ act'.name = "RecordKept" /\ act'.t = t
         \/ act'.name \in {"Drain", "Maintain"}]_vars
+
+
+\* Bridge: the implementation-shaped model honours the numeric promise whenever
+\* maintenance has been regular (checked by TLC with TrackPromise = TRUE)
+PromiseHeldByModel ==
+  pRegular => \A t \in Traces :
+                 (pSince[t] >= 0 /\ pSince[t] < Retain(pCapMin)) => /\ TraceAns(t) = Dropped
+                                                                   /\ SpanAns(t) = Dropped
+ViewAll == <<kept, keptCap, cur, curSlots, futOn, fut, futSlots, nextCap, queue, recent, gh, obl,
+             pSince, pNeedMaint, pCapMin, pRegular>>
+
+---------------------------------------------------------------------------
+(***************************************************************************)
+(* SpecP: the PROMISE-ONLY specification (second alternative of the walk). *)
+(* It knows nothing of filters, generations, loads, slots, the recent set  *)
+(* or the LRU's representation.  Its state is the history the property     *)
+(* statement talks about:                                                  *)
+(*   gh         the keptCap kept decisions most recently recorded or       *)
+(*              consulted (a lookup counts only if it answered kept)       *)
+(*   pEver      what else an implementation may still remember as kept     *)
+(*   pSince     per trace, how many dropped records were settled since its *)
+(*              own dropped record was settled                             *)
+(*   pFresh     dropped records not older than the short-term memory       *)
+(* and its only observable is the answer of a lookup (pLast).  A lookup    *)
+(* may answer anything the statement does not forbid:                      *)
+(*   - owed dropped (pSince < Retain(pCapMin), or fresh for CheckSpan):    *)
+(*     must answer dropped, even if the trace is also owed as kept;        *)
+(*   - otherwise dropped is allowed for any trace ever recorded dropped    *)
+(*     ("at least until": remembering longer is fine),                     *)
+(*     kept with the last recorded rate and reason for any trace ever      *)
+(*     recorded kept (mandatory, if not answered dropped, for owed ones),  *)
+(*     none only for traces not owed as kept.                              *)
+(* Dropped records are explored under regular maintenance only (a cycle    *)
+(* runs between two dropped records), which is the regime in which a count *)
+(* of records can stand for "the filter has been filled to capacity".      *)
+(* The capacity in force is the smallest DroppedSize configured so far     *)
+(* (void after a Resize that lowers the retention), so the obligation      *)
+(* never depends on when an implementation creates, sizes or rotates its   *)
+(* filters.                                                                *)
+(***************************************************************************)
+Owed(t) == \E i \in DOMAIN gh : gh[i].t = t
+OblTrace == {t \in Traces : pSince[t] >= 0 /\ pSince[t] < Retain(pCapMin)}
+OblSpan == OblTrace \cup pFresh
+
+Allowed(t, obliged) ==
+  IF t \in obliged THEN {[ans |-> "dropped", rate |-> 0, reason |-> ""]}
+  ELSE (IF t \in pEverDrop THEN {[ans |-> "dropped", rate |-> 0, reason |-> ""]} ELSE {})
+       \cup (IF pEver[t] # <<>> THEN {[ans |-> "kept", rate |-> pEver[t][1], reason |-> pEver[t][2]]} ELSE {})
+       \cup (IF ~Owed(t) THEN {[ans |-> "none", rate |-> 0, reason |-> ""]} ELSE {})
+
+iUnused == <<kept, cur, curSlots, futOn, fut, futSlots, recent, obl>>
+
+InitP == /\ kept = <<>> /\ cur = EmptyBag /\ curSlots = 0 /\ futOn = FALSE /\ fut = EmptyBag
+         /\ futSlots = 0 /\ recent = {} /\ obl = [t \in Traces |-> 0]
+         /\ keptCap \in KeptSizes
+         /\ nextCap \in DropSizes
+         /\ queue = <<>>
+         /\ gh = <<>>
+         /\ pEver = [t \in Traces |-> <<>>]
+         /\ pEverDrop = {}
+         /\ pSince = [t \in Traces |-> -1]
+         /\ pFresh = {}
+         /\ pNeedMaint = FALSE
+         /\ pCapMin = nextCap
+         /\ pRegular = TRUE
+         /\ pLast = NoLast
+         /\ pTotal = 0
+         /\ pResizedAt = -1
+         /\ act = [name |-> "Init"]
+
+PRecordKept(t, r, w) ==
+  /\ gh' = Newest(Touch(gh, [t |-> t, rate |-> r, reason |-> w]), keptCap)
+  /\ pEver' = [pEver EXCEPT ![t] = <<r, w>>]
+  /\ pLast' = NoLast
+  /\ UNCHANGED <<keptCap, nextCap, queue, pEverDrop, pSince, pFresh, pNeedMaint, pCapMin, pTotal, pResizedAt>>
+  /\ act' = [name |-> "RecordKept", t |-> t, rate |-> r, reason |-> w]
+
+PRecordDropped(t) ==
+  /\ queue = <<>> /\ ~pNeedMaint                    \* regular maintenance
+  /\ pTotal < MaxTotal
+  /\ queue' = <<t>>
+  /\ pFresh' = pFresh \cup {t}
+  /\ pEverDrop' = pEverDrop \cup {t}
+  /\ pLast' = NoLast
+  /\ UNCHANGED <<keptCap, nextCap, gh, pEver, pSince, pNeedMaint, pCapMin, pTotal, pResizedAt>>
+  /\ act' = [name |-> "RecordDropped", t |-> t]
+
+PSettle(name, needMaint) ==
+  /\ pSince' = SettleSince(queue, pSince)
+  /\ queue' = <<>>
+  /\ pNeedMaint' = needMaint
+  /\ pTotal' = pTotal + Len(queue)
+  /\ pLast' = NoLast
+  /\ UNCHANGED <<keptCap, nextCap, gh, pEver, pEverDrop, pFresh, pCapMin, pResizedAt>>
+  /\ act' = [name |-> name]
+
+PDrain == queue # <<>> /\ PSettle("Drain", TRUE)
+PMaintain == PSettle("Maintain", FALSE)
+
+PLookup(name, t, obliged) ==
+  \E a \in Allowed(t, obliged) :
+    /\ pLast' = [op |-> name, t |-> t, ans |-> a.ans, rate |-> a.rate, reason |-> a.reason]
+    /\ gh' = IF a.ans = "kept"
+             THEN Newest(Touch(gh, [t |-> t, rate |-> a.rate, reason |-> a.reason]), keptCap)
+             ELSE gh
+    /\ UNCHANGED <<keptCap, nextCap, queue, pEver, pEverDrop, pSince, pFresh, pNeedMaint, pCapMin, pTotal, pResizedAt>>
+    /\ act' = [name |-> name, t |-> t]
+
+PExpireRecent ==
+  /\ pFresh # {}
+  /\ pFresh' = {}
+  /\ pLast' = NoLast
+  /\ UNCHANGED <<keptCap, nextCap, queue, gh, pEver, pEverDrop, pSince, pNeedMaint, pCapMin, pTotal, pResizedAt>>
+  /\ act' = [name |-> "ExpireRecent"]
+
+PResize(n, d) ==
+  /\ n >= 1
+  /\ gh' = Newest(gh, n)
+  /\ keptCap' = n
+  /\ nextCap' = d
+  /\ pCapMin' = CapInForce(pCapMin, nextCap, d)
+  /\ pResizedAt' = IF d # nextCap THEN pTotal ELSE pResizedAt
+  /\ pLast' = NoLast
+  /\ UNCHANGED <<queue, pEver, pEverDrop, pSince, pFresh, pNeedMaint, pTotal>>
+  /\ act' = [name |-> "Resize", kept |-> n, dropped |-> d]
+
+NextP == /\ \/ \E t \in KeepTraces, m \in MetaPairs : PRecordKept(t, m[1], m[2])
+            \/ \E t \in DropTraces : PRecordDropped(t)
+            \/ PDrain
+            \/ PMaintain
+            \/ \E t \in Traces : PLookup("CheckSpan", t, OblSpan)
+            \/ \E t \in Traces : PLookup("CheckTrace", t, OblTrace)
+            \/ PExpireRecent
+            \/ \E n \in ResizeKept, d \in DropSizes : PResize(n, d)
+         /\ UNCHANGED <<iUnused, pRegular>>
+
+SpecP == InitP /\ [][NextP]_vars
+
+TypeOKP ==
+  /\ gh \in Seq([t : Traces, rate : Rates, reason : Reasons]) /\ Len(gh) <= keptCap
+  /\ \A i, j \in DOMAIN gh : i # j => gh[i].t # gh[j].t
+  /\ \A i \in DOMAIN gh : pEver[gh[i].t] = <<gh[i].rate, gh[i].reason>>
+  /\ pSince \in [Traces -> -1 .. SinceMax]
+  /\ pFresh \subseteq pEverDrop /\ pEverDrop \subseteq Traces
+  /\ Len(queue) <= 1
+  /\ pCapMin \in DropSizes \cup {-1} /\ pCapMin <= nextCap
+  /\ pTotal \in 0 .. MaxTotal /\ pResizedAt \in -1 .. MaxTotal
+\* what SpecP promises, restated on its own answers: an owed dropped record has exactly one
+\* allowed answer, and an owed kept decision never answers none or other values
+PromiseShape ==
+  /\ \A t \in OblTrace : Allowed(t, OblTrace) = {[ans |-> "dropped", rate |-> 0, reason |-> ""]}
+  /\ \A t \in OblSpan : Allowed(t, OblSpan) = {[ans |-> "dropped", rate |-> 0, reason |-> ""]}
+  /\ \A i \in DOMAIN gh : \A a \in Allowed(gh[i].t, OblTrace) \cup Allowed(gh[i].t, OblSpan) :
+        \/ a.ans = "dropped" /\ gh[i].t \in pEverDrop
+        \/ a.ans = "kept" /\ a.rate = gh[i].rate /\ a.reason = gh[i].reason
+
+AbsP == [last |-> pLast]
+StP == [keptCap |-> keptCap, nextCap |-> nextCap, queue |-> queue, gh |-> gh, pEver |-> pEver,
+        pEverDropSet |-> pEverDrop, pSince |-> pSince, pFreshSet |-> pFresh, pNeedMaint |-> pNeedMaint,
+        pCapMin |-> pCapMin, last |-> pLast, pTotal |-> pTotal, pResizedAt |-> pResizedAt]
+DumpP == PrintT(ToJson([fs |-> StP, fa |-> act.name, act |-> act', ts |-> StP', fabs |-> AbsP, tabs |-> AbsP']))
+ViewP == <<keptCap, nextCap, queue, gh, pEver, pEverDrop, pSince, pFresh, pNeedMaint, pCapMin, pLast, pTotal, pResizedAt>>
 
 \* edge dump used by the conformance replay (enabled from the .cfg)
 Dump == PrintT(ToJson([fs |-> St, fa |-> act.name, act |-> act', ts |-> St', fabs |-> Abs, tabs |-> Abs']))
